@@ -53,6 +53,8 @@ func digestOf(x any) string {
 		v = bytesToInts(t)
 	case string, int, bool, []int, []string:
 		v = t
+	case func() any: // a view of shared objects taken at digest time
+		return digestOf(t())
 	default:
 		v = enc(reflect.ValueOf(x))
 	}
@@ -261,6 +263,19 @@ func bn254Subjects(r *Rng) []*subject {
 		ok, e := cpub.Verify(csig, msg, sha256.New())
 		return []any{ok, e == nil}
 	}})
+	// public key recovery with the x-overflow bit of the recovery id set (x = r + n): honest signatures never produce it,
+	// and r, s are the caller's read-only integers on that path too. Digests of their text: the integers themselves are shared.
+	for _, v := range []uint{0, 2, 3} {
+		rr, ss := new(big.Int).Lsh(big.NewInt(0x1e240), 40), big.NewInt(987654321) // not from csig: signing draws a fresh nonce in every process
+		rtxt := func() any { return []string{rr.String(), ss.String()} }
+		subs = append(subs, &subject{name: fmt.Sprintf("bn254.ecdsa.RecoverFrom.v%d", v), shared: []any{msg, rtxt}, run: func(int) any {
+			var pk bn254ecdsa.PublicKey
+			if e := pk.RecoverFrom(msg, v, rr, ss); e != nil {
+				return e.Error() // the receiver is unspecified after an error
+			}
+			return &pk.A
+		}})
+	}
 	// hash to curve and the stream decoder over shared bytes
 	// the domain separation tag is the head of a longer shared buffer (spare capacity holding a second tag)
 	dstBuf := []byte("dst-Atag-B")
@@ -421,7 +436,7 @@ func runC18(args []string) {
 	r := newRng(*seed*7 + 1) // inputs depend on the seed only: traces of all configurations are comparable
 	t := newTrace(*out, "c18_"+*config, Ev{"property": "C18", "config": *config, "seed": int(*seed % (1 << 30))})
 	var subs []*subject
-	pcs := []string{"bn254", "bls12-381"}
+	pcs := []string{"bn254", "bls12-377", "bls12-381", "bls24-315", "bls24-317", "bw6-633", "bw6-761"} // hand-written per curve
 	mcs := []string{"bn254", "bls12-377"}
 	if *tier == "thorough" {
 		pcs = []string{"bn254", "bls12-377", "bls12-381", "bls24-315", "bls24-317", "bw6-633", "bw6-761"}
